@@ -2265,7 +2265,12 @@ def _m_ord(self, args, kwargs, node, f):
     if isinstance(v, SSeq):
         if isinstance(v.length, int) and v.length == 1:
             return self.seq_get(v, 0, node)
-        raise Unsupported("ord() of a symbolic sequence")
+        if isinstance(v.length, int):
+            raise PyRaise(TypeError, "ord() expected a character, but string of length %d found" % v.length, node)
+        # symbolic length (a read near the end of the data): exactly one element, or TypeError
+        if self.decide(_ie(v.length) == 1):
+            return self.seq_get(v, 0, node)
+        raise PyRaise(TypeError, "ord() expected a character", node)
     if isinstance(v, SEnum) and all(isinstance(t, str) and len(t) == 1 for t in v.table):
         return v.map(ord).collapse()
     if is_sym(v):
